@@ -107,6 +107,17 @@ func (fr *Frame) callValue(st *State, fv *Val, args []*Val, pos token.Pos, sig *
 	case *ssa.Builtin:
 		return fr.callBuiltin(st, f, nil, args, pos)
 	}
+	if mx, ok := fv.X.(*mixedX); ok && x.effectFreeFn(mx.a) && x.effectFreeFn(mx.b) {
+		// either a callback assumed pure or a closure that does nothing
+		x.bumpAllocTop(st)
+		var res []*Val
+		for i := 0; i < sig.Results().Len(); i++ {
+			r := x.freshVal("cb", sig.Results().At(i).Type())
+			x.refFacts(st, r)
+			res = append(res, r)
+		}
+		return res
+	}
 	if pf, ok := fv.X.(*ParamFn); ok && x.top != nil && x.top.contract != nil && x.top.contract.Calls[pf.name] == "pure" {
 		// assumed (listed): the callback does not write caller-visible memory
 		x.vc.diag("%s: callback parameter %s assumed not to write caller-visible memory (calls %s pure)", fr.fn.String(), pf.name, pf.name)
@@ -711,6 +722,41 @@ func (fr *Frame) callbackLoop(st *State, cl *Closure, pname string, env *SpecEnv
 	errTy := types.Universe.Lookup("error").Type()
 	env.vars[pname+"_err"] = &Val{Ty: errTy, L: []string{tIte(stopped, errT, "0")}}
 	env.vars[pname+"_stopped"] = mkBool(stopped)
+}
+
+// effectFreeFn: a function value whose call cannot change caller-visible state:
+// a callback parameter declared `calls P pure`, or a closure with an empty body.
+func (x *Exec) effectFreeFn(v any) bool {
+	switch f := v.(type) {
+	case *ParamFn:
+		return x.top != nil && x.top.contract != nil && x.top.contract.Calls[f.name] == "pure"
+	case *Closure:
+		if f.fn.Blocks == nil {
+			return false
+		}
+		for _, b := range f.fn.Blocks {
+			for _, ins := range b.Instrs {
+				switch ins.(type) {
+				case *ssa.Return, *ssa.RunDefers, *ssa.DebugRef, *ssa.Alloc, *ssa.Jump:
+				case *ssa.Store:
+					// parameter spills only
+					if _, ok := ins.(*ssa.Store).Addr.(*ssa.Alloc); !ok {
+						return false
+					}
+				case *ssa.Call:
+					if bi, ok := ins.(*ssa.Call).Call.Value.(*ssa.Builtin); !ok || bi.Name() != "ssa:deferstack" {
+						return false
+					}
+				default:
+					return false
+				}
+			}
+		}
+		return true
+	case *mixedX:
+		return x.effectFreeFn(f.a) && x.effectFreeFn(f.b)
+	}
+	return false
 }
 
 // crashCheck asserts the crash invariants of the function under verification
